@@ -13,7 +13,7 @@ use crate::subjects::trees;
 use serde_json::{Value, json};
 
 pub const KINDS: [&str; 9] = ["const", "fn-empty-body", "fn-body-with-return", "fn-large-body", "fn-head", "struct", "word", "opaque-struct", "import"];
-pub const FLAGS: [&str; 3] = ["private", "pub", "pub extern"];
+pub const FLAGS: [&str; 4] = ["private", "pub", "pub extern", "extern"];
 
 fn r(b: &str) -> Reference
 {
@@ -27,7 +27,8 @@ pub fn make_decl(symbol: usize, position: usize) -> Decl
 	{
 		0 => Flags { public: false, external: false },
 		1 => Flags { public: true, external: false },
-		_ => Flags { public: true, external: true },
+		2 => Flags { public: true, external: true },
+		_ => Flags { public: false, external: true },
 	};
 	let name = format!("n{position}");
 	let int = |s: &str| Expr::Int(s.to_string());
@@ -93,19 +94,24 @@ pub fn drive(d: &mut Driver)
 	let lmax = if quick { 4 } else { 5 };
 	d.bound("declaration kinds", json!(KINDS));
 	d.bound("visibility variants", json!(FLAGS));
+	d.bound("private extern declarations", json!("in all sequences shorter than the maximum length"));
 	d.bound("max declarations per module", json!(lmax));
 	let mut jobs = Vec::new();
 	for len in 0..=lmax
 	{
 		if len <= 2
 		{
-			jobs.push(json!({"len": len, "prefix": []}));
+			jobs.push(json!({"len": len, "prefix": [], "restricted": false}));
 		}
 		else if len <= 4
 		{
 			for a in 0..n
 			{
-				jobs.push(json!({"len": len, "prefix": [a]}));
+				if len == lmax && a % FLAGS.len() == 3
+				{
+					continue;
+				}
+				jobs.push(json!({"len": len, "prefix": [a], "restricted": len == lmax}));
 			}
 		}
 		else
@@ -114,7 +120,11 @@ pub fn drive(d: &mut Driver)
 			{
 				for b in 0..n
 				{
-					jobs.push(json!({"len": len, "prefix": [a, b]}));
+					if a % FLAGS.len() == 3 || b % FLAGS.len() == 3
+					{
+						continue;
+					}
+					jobs.push(json!({"len": len, "prefix": [a, b], "restricted": true}));
 				}
 			}
 		}
@@ -141,10 +151,15 @@ pub fn work(spec: &Value, w: &mut WorkerCtx)
 		idx[k] = *p;
 	}
 	let fixed = prefix.len();
+	let restricted = spec["restricted"].as_bool().unwrap_or(false);
 	loop
 	{
-		w.result.transitions += if len > 0 { 1 } else { 0 };
-		judge(&idx, w);
+		// at the longest length only the three visibility variants of the original space
+		if !(restricted && idx.iter().any(|s| s % FLAGS.len() == 3))
+		{
+			w.result.transitions += if len > 0 { 1 } else { 0 };
+			judge(&idx, w);
+		}
 		let mut k = len;
 		loop
 		{
@@ -166,7 +181,7 @@ pub fn work(spec: &Value, w: &mut WorkerCtx)
 fn pattern(seq: &[usize]) -> String
 {
 	// visibility pattern, e.g. "-P-P" (private / Public), used for signatures
-	seq.iter().map(|s| if s % FLAGS.len() == 0 { '-' } else { 'P' }).collect()
+	seq.iter().map(|s| if s % FLAGS.len() == 0 || s % FLAGS.len() == 3 { '-' } else { 'P' }).collect()
 }
 
 fn judge(seq: &[usize], w: &mut WorkerCtx)
